@@ -23,7 +23,7 @@ CONSTANTS
   DOps <- OpsAll
   DMis <- Mis0
   SStreams <- StreamsQ
-  SQs <- Q1236
+  SQs <- Q1to8
   CapMax = 8
   Kinds <- None
   Pres <- None
